@@ -94,4 +94,12 @@ CLAIMED = {
         'n_b * g_b and n_b with the documented key plumbing; that per-domain segment sums count real rows of that domain only.',
    note='Trusted: jax.grad extensional/linear, split deterministic, x*mask = mask?x:0, SUMROWS abstraction, R arithmetic (float32 '
         'NaN-freedom of safe_div is a C05 obligation). Precondition from the only call site: domain metrics are built without a regularizer.'),
+ 'C01': dict(
+   text='Proof over contracts, for any number of clients and any client sizes: the real FedAvg apply() hands every client ITS OWN '
+        'shuffle_repeat_batch stream and key to for_each_client, accumulates sum(n_i*delta_i) and sum(n_i) (loop invariant), applies the '
+        'server optimizer exactly once to (mean or exactly 0 when no example was seen, server opt state, server params), returns a fresh '
+        'ServerState with exactly the optimizer outputs, one diagnostics entry per client, input state untouched; the client triple is '
+        'optimizer(grad(params, batch, split(rng)[1]), ...) with rng <- split(rng)[0] and delta = server - client params.',
+   note='Trusted: for_each_client contract (C02, backend independent), optimizers/grad pure (uninterpreted), distinct client ids, '
+        'R arithmetic, order independence = commutativity of +. Native driver compares whole multi-round runs with a reference.'),
 }
